@@ -42,8 +42,8 @@ theorem C02_value_to_ptr_nonnil (fuel : Nat) (te : Ty) (inner : Conv) (src old v
   simp [evalConv, bind, StateT.bind, h, freshLoc, pure, StateT.pure]
 
 /-- pointer to value (useZeroValueOnPointerInconsistency): nil keeps the target's zero value -/
-theorem C02_srcptr_nil (fuel : Nat) (inner : Conv) (old : Val) (n : Nat) :
-    evalConv p (fuel+1) fr (.srcPtr inner) .nil old n = .ok (old, n) := by
+theorem C02_srcptr_nil (fuel : Nat) (t : Ty) (inner : Conv) (old : Val) (n : Nat) :
+    evalConv p (fuel+1) fr (.srcPtr t inner) .nil old n = .ok (old, n) := by
   simp [evalConv, pure, StateT.pure]
 
 /-! ### slices: nil ↦ nil, empty ↦ empty non-nil, otherwise same length and order -/
